@@ -329,9 +329,9 @@ def one_vector(cls, kw, dim, with_solids, clean, level, mon):
                   '%s' % (str(e)[:300] or buf.getvalue()[-300:]))
     mon['level2'] = mon.get('level2', 0) + 1
     mon.setdefault('_codes', set()).add(common.digest(code))
-    if level < 3:
+    if level < 2.5:
         return 'ok'
-    if cls.__name__ in RUN_NOT_ASSERTED:
+    if cls.__name__ in RUN_NOT_ASSERTED and level != 2.5:
         mon['level3_not_asserted'] = mon.get('level3_not_asserted', 0) + 1
         mon.setdefault('_refusals', set()).add('%s: run not asserted: %s' % (
             cls.__name__, RUN_NOT_ASSERTED[cls.__name__]))
@@ -354,6 +354,23 @@ def one_vector(cls, kw, dim, with_solids, clean, level, mon):
             pa.get('V', only_real_particles=False)[:] = pa.get(
                 'rho', only_real_particles=False) / pa.get(
                     'm', only_real_particles=False)
+    if level == 2.5:
+        # compile the whole problem, do not run it
+        try:
+            with contextlib.redirect_stdout(buf):
+                nn = LinkedListNNPS(dim=dim, particles=pas,
+                                    radius_scale=solver.kernel.radius_scale)
+                solver.setup(pas, eqs, nn, solver.kernel)
+        except SystemExit:
+            raise Bad('compile-failed', buf.getvalue()[-1500:])
+        except ModuleNotFoundError as e:
+            mon['level3_needs_missing_module'] = mon.get(
+                'level3_needs_missing_module', 0) + 1
+            return 'ok'
+        except Exception as e:
+            raise Bad('compile:%s' % type(e).__name__, str(e)[:300])
+        mon['compiled_only'] = mon.get('compiled_only', 0) + 1
+        return 'ok'
     try:
         with contextlib.redirect_stdout(buf):
             nn = LinkedListNNPS(dim=dim, particles=pas,
@@ -431,6 +448,19 @@ def work(item):
                 rich[k_] = fac[k_][-1]
         vecs = [rich] + [v_ for v_ in vecs if v_ != rich][
             :max(0, item['n_run'] - 1)]
+    if item.get('departures'):
+        # every single departure of a boolean option from the defaults is
+        # compiled (generated code that names the right properties can
+        # still fail to compile: a property of the wrong type, ...)
+        base, fac = factors(cls, item['dim'], item['solids'])
+        vecs = []
+        for k_ in sorted(fac):
+            if all(isinstance(v_, bool) for v_ in fac[k_]):
+                d_ = dict(base)
+                d_[k_] = not base[k_]
+                vecs.append(d_)
+        vecs = [v_ for i_, v_ in enumerate(vecs)
+                if i_ % item['of'] == item['part']]
     mon['grid_total'] = total
     mon['grid_exhaustive_parts'] = int(exhaustive)
     nl2 = item['n_codegen']
@@ -440,6 +470,8 @@ def work(item):
         kw = vecs[vi]
         clean = bool((j + item['dim']) % 2)
         level = 3 if j < nl3 else (2 if j < nl2 else 1)
+        if item.get('departures'):
+            level = 2.5
         case = dict(scheme=item['scheme'], dim=item['dim'],
                     solids=item['solids'], clean=clean,
                     options={k: v for k, v in kw.items()
@@ -508,6 +540,12 @@ def run(tier):
                           budget=1 if quick else 6, n_codegen=0,
                           n_run=1 if quick else 6, only_run=True,
                           flavour='plain', timeout=3000))
+    for n in names:
+        for part in range(2):
+            items.append(dict(seed=seed, scheme=n, dim=2, solids=False,
+                              budget=1, n_codegen=0, n_run=0, only_run=True,
+                              departures=True, part=part, of=2,
+                              flavour='plain', timeout=3000))
     for n in names:
         for dim in (1, 2, 3):
             for solids in (False, True):
